@@ -27,18 +27,20 @@ type loopCtx struct {
 }
 
 type Builder struct {
-	P        *Prog
-	G        *Graph
-	cur      *Node
-	inst     *Instance
-	info     *types.Info
-	vars     map[varKey]*Var
-	loops    []loopCtx
-	pending  []*Term
-	maxDepth int
-	noInline map[string]bool
-	stack    []*types.Func
-	loopSeq  int
+	P             *Prog
+	forceMapChain bool  // build the comparison chain even for a rule-owned table (lookup compared with a constant)
+	forceMapValue *Term // that constant
+	G             *Graph
+	cur           *Node
+	inst          *Instance
+	info          *types.Info
+	vars          map[varKey]*Var
+	loops         []loopCtx
+	pending       []*Term
+	maxDepth      int
+	noInline      map[string]bool
+	stack         []*types.Func
+	loopSeq       int
 	// fnBind: locals currently bound to one static function (the value variable
 	// of an unrolled range over a table of functions)
 	fnBind map[types.Object]*types.Func
@@ -1213,6 +1215,32 @@ func (b *Builder) leaf(e ast.Expr) *Term {
 	if x, ok := e.(*ast.BinaryExpr); ok {
 		switch x.Op {
 		case token.EQL, token.NEQ, token.LSS, token.LEQ, token.GTR, token.GEQ:
+			// a lookup in one of the rule-owned constant tables compared with a constant is a
+			// test on the key (the rows with that value), whatever form the rules keep the table in
+			if x.Op == token.EQL || x.Op == token.NEQ {
+				lk := func(a, c ast.Expr) *Term {
+					ix, ok := ast.Unparen(a).(*ast.IndexExpr)
+					if !ok {
+						return nil
+					}
+					if tv, ok := b.info.Types[c]; !ok || tv.Value == nil {
+						return nil
+					}
+					b.forceMapChain, b.forceMapValue = true, constTerm(b.info.Types[c].Value)
+					ts := b.constScalarMapLookup(ix, false)
+					b.forceMapChain, b.forceMapValue = false, nil
+					if len(ts) == 0 {
+						return nil
+					}
+					return ts[0]
+				}
+				if l := lk(x.X, x.Y); l != nil {
+					return mk("bin", x.Op.String(), l, b.expr(x.Y))
+				}
+				if r := lk(x.Y, x.X); r != nil {
+					return mk("bin", x.Op.String(), b.expr(x.X), r)
+				}
+			}
 			l := b.expr(x.X)
 			r := b.expr(x.Y)
 			return mk("bin", x.Op.String(), l, r)
